@@ -326,6 +326,32 @@ M("c11-ctor-short-alloc", "C11", "json_object.c",
 M("c11-benign-order", "C11", "json_object.c",
   "\t\tJC_STRING(jso)->c_string.pdata = dstbuf;\n\t\tnewlen = -(ssize_t)len;", "\t\tnewlen = -(ssize_t)len;\n\t\tJC_STRING(jso)->c_string.pdata = dstbuf;", expect="silent")
 
+# ---- C07 -------------------------------------------------------------------------------------
+M("c07-expand-idx", "C07", "arraylist.c",
+  "\tif (array_list_expand_internal(arr, idx + 1))\n\t\treturn -1;\n\tif (idx < arr->length && arr->array[idx])",
+  "\tif (array_list_expand_internal(arr, idx))\n\t\treturn -1;\n\tif (idx < arr->length && arr->array[idx])", needle="array_list_put_idx")
+M("c07-no-gap-fill", "C07", "arraylist.c",
+  "\t\tmemset(arr->array + arr->length, 0, (idx - arr->length) * sizeof(void *));", "\t\t;", needle="C07.R4")
+M("c07-insert-no-expand", "C07", "arraylist.c",
+  "\tif (array_list_expand_internal(arr, arr->length + 1))\n\t\treturn -1;\n\n\tmove_amount",
+  "\tif (arr->length + 1 > arr->size && array_list_expand_internal(arr, arr->length))\n\t\treturn -1;\n\n\tmove_amount", needle="array_list_insert_idx")
+M("c07-wrap-guard-dropped", "C07", "arraylist.c",
+  "\tif (idx > SIZE_T_MAX - 1)\n\t\treturn -1;\n\tif (array_list_expand_internal(arr, idx + 1))\n\t\treturn -1;\n\tif (idx < arr->length",
+  "\tif (array_list_expand_internal(arr, idx + 1))\n\t\treturn -1;\n\tif (idx < arr->length", needle="array_list_put_idx")
+M("c07-expand-strict", "C07", "arraylist.c",
+  "\tif (max < arr->size)\n\t\treturn 0;", "\tif (max <= arr->size + 1)\n\t\treturn 0;", needle="array_list_expand_internal")
+M("c07-del-partial-failure", "C07", "arraylist.c",
+  "\tif (idx >= arr->length || stop > arr->length)\n\t\treturn -1;\n\tfor (i = idx; i < stop; ++i)",
+  "\tif (idx >= arr->length)\n\t\treturn -1;\n\tfor (i = idx; i < stop; ++i)", needle="array_list_del_idx")
+M("c07-put-no-release", "C07", "arraylist.c",
+  "\tif (idx < arr->length && arr->array[idx])\n\t\tarr->free_fn(arr->array[idx]);\n\tarr->array[idx] = data;\n\tif (idx > arr->length)",
+  "\tarr->array[idx] = data;\n\tif (idx > arr->length)", needle="C07.R6")
+M("c07-shrink-below-length", "C07", "arraylist.c",
+  "\tnew_size = arr->length + empty_slots;\n\tif (new_size == arr->size)", "\tnew_size = arr->length / 2 + empty_slots;\n\tif (new_size == arr->size)", needle="array_list_shrink")
+M("c07-benign-compare", "C07", "arraylist.c",
+  "\tif (idx > SIZE_T_MAX - 1)\n\t\treturn -1;\n\tif (array_list_expand_internal(arr, idx + 1))\n\t\treturn -1;\n\tif (idx < arr->length",
+  "\tif (idx >= SIZE_T_MAX)\n\t\treturn -1;\n\tif (array_list_expand_internal(arr, idx + 1))\n\t\treturn -1;\n\tif (idx < arr->length", expect="silent")
+
 
 def sh(cmd, **kw):
     return subprocess.run(cmd, shell=isinstance(cmd, str), stdout=subprocess.PIPE, stderr=subprocess.STDOUT, text=True, **kw)
